@@ -258,7 +258,7 @@ Definition bot_cond (c : bcfg) (e : env) (f : frame) (t : string) : option cres 
     match f_fields f with
     | FString rid :: rest =>
         match bc_registry c rid (match rest with FRaw d :: _ => d | _ => [] end) with
-        | Some true => Some (CBool false)
+        | Some (Some _) => Some (CBool false)
         | _ => Some (CFail stRegistry)
         end
     | _ => Some (CFail stRegistry)
@@ -301,9 +301,20 @@ Definition run_case (c : bcfg) (b : bot) (f : frame) (label : string) (loop exit
       (* a Scan into c.UUID / c.Name stores into the client *)
       let b1 := {| b_ph := b_ph b; b_thr := b_thr b;
                    b_name := match lookup e "c.Name" with Some v => field_bytes v | None => b_name b end;
-                   b_uuid := match lookup e "c.UUID" with Some v => field_bytes v | None => b_uuid b end |} in
+                   b_uuid := match lookup e "c.UUID" with Some v => field_bytes v | None => b_uuid b end;
+                   (* `_, err = registry.ReadFrom(r)`: the registry named by the packet takes the entries read *)
+                   b_regs := if existsb (fun st => match st with GOther t => String.eqb t "_,err = registry.ReadFrom(r)" | _ => false end) rest
+                             then match f_fields f with
+                                  | FString rid :: more =>
+                                      match bc_registry c rid (match more with FRaw d :: _ => d | _ => [] end) with
+                                      | Some (Some es) => b_regs b ++ [(rid, es)]
+                                      | _ => b_regs b
+                                      end
+                                  | _ => b_regs b
+                                  end
+                             else b_regs b |} in
       let '(out, thr, st) := run_seg fuel0 (bot_sem c e f) (b_thr b) rest in
-      let b2 := {| b_ph := b_ph b1; b_thr := thr; b_name := b_name b1; b_uuid := b_uuid b1 |} in
+      let b2 := {| b_ph := b_ph b1; b_thr := thr; b_name := b_name b1; b_uuid := b_uuid b1; b_regs := b_regs b1 |} in
       let after (next : bphase) :=
         match out with
         | [] => b_set b2 next
@@ -384,7 +395,7 @@ Qed.
 Theorem bot_config_is_skel : forall (c : bcfg) (b : bot) (f : frame), b_ph b = BConfig ->
   bot_config c b f = run_cases c b f BConfig BJoined stConfig (loop_cases expected_bot_join_configuration).
 Proof.
-  intros c [ph bt bn bu] [t id fs] Hph. cbn [b_ph] in Hph. subst ph. unfold bot_config. cbn [f_id f_fields].
+  intros c [ph bt bn bu br] [t id fs] Hph. cbn [b_ph] in Hph. subst ph. unfold bot_config. cbn [f_id f_fields].
   destruct (Z.eq_dec id 0) as [->|H0]; [vm_compute; try reflexivity; crush_matches|].
   destruct (Z.eq_dec id 1) as [->|H1]; [vm_compute; try reflexivity; crush_matches|].
   destruct (Z.eq_dec id 2) as [->|H2]; [vm_compute; try reflexivity; crush_matches|].
@@ -429,7 +440,7 @@ Theorem bot_join_prelude_is_skel : forall c : bcfg,
       = (w1, -1, StCall "err := c.joinLogin(conn); err != nil" r1) /\
     run_seg fuel0 (bot_sem c [] frame0) (-1) expected_bot_join_login = (w2, -1, StLoop body) /\
     drain (bot_act c) 5 (bot_join_init c)
-      = (w1 ++ w2, {| b_ph := BLogin; b_thr := -1; b_name := []; b_uuid := bc_claim c |}) /\
+      = (w1 ++ w2, {| b_ph := BLogin; b_thr := -1; b_name := []; b_uuid := bc_claim c; b_regs := [] |}) /\
     run_seg fuel0 (bot_sem c [] frame0) (-1) r1
       = ([], -1, StCall "err := c.joinConfiguration(conn); err != nil" r2) /\
     run_seg fuel0 (bot_sem c [] frame0) (-1) r2 = ([], -1, StReturn "nil").
@@ -443,7 +454,7 @@ Theorem bot_ping_prelude_is_skel : forall c : bcfg,
   exists w1 r1,
     run_seg fuel0 (bot_sem c [] frame0) (-1) expected_bot_ping_and_list = (w1, -1, StRead r1) /\
     drain (bot_act c) 5 (bot_ping_init c)
-      = (w1, {| b_ph := BStatusList; b_thr := -1; b_name := []; b_uuid := bc_claim c |}) /\
+      = (w1, {| b_ph := BStatusList; b_thr := -1; b_name := []; b_uuid := bc_claim c; b_regs := [] |}) /\
     forall (b : bot) (json : list N), exists w2 r2,
        run_seg fuel0 (bot_sem c [("s", FString json)] frame0) (b_thr b) (snd (split_scan (tl r1)))
          = (w2, b_thr b, StRead r2) /\
@@ -451,7 +462,7 @@ Theorem bot_ping_prelude_is_skel : forall c : bcfg,
          = (w2, b_set b (BStatusPong json (bc_time c))).
 Proof.
   intros c. do 2 eexists. split; [vm_compute; reflexivity|]. split; [vm_compute; reflexivity|].
-  intros [ph bt bn bu] json. do 2 eexists. split; vm_compute; reflexivity.
+  intros [ph bt bn bu br] json. do 2 eexists. split; vm_compute; reflexivity.
 Qed.
 
 (* ---------------------------------------------------------------- the server: AcceptLogin and AcceptConn *)
@@ -624,7 +635,7 @@ Theorem bot_join_prelude_is_source : forall c : bcfg,
       = (w1, -1, StCall "err := c.joinLogin(conn); err != nil" r1) /\
     run_seg fuel0 (bot_sem c [] frame0) (-1) Gate.bot_join_login = (w2, -1, StLoop body) /\
     drain (bot_act c) 5 (bot_join_init c)
-      = (w1 ++ w2, {| b_ph := BLogin; b_thr := -1; b_name := []; b_uuid := bc_claim c |}) /\
+      = (w1 ++ w2, {| b_ph := BLogin; b_thr := -1; b_name := []; b_uuid := bc_claim c; b_regs := [] |}) /\
     run_seg fuel0 (bot_sem c [] frame0) (-1) r1
       = ([], -1, StCall "err := c.joinConfiguration(conn); err != nil" r2) /\
     run_seg fuel0 (bot_sem c [] frame0) (-1) r2 = ([], -1, StReturn "nil").
@@ -633,7 +644,7 @@ Theorem bot_ping_prelude_is_source : forall c : bcfg,
   exists w1 r1,
     run_seg fuel0 (bot_sem c [] frame0) (-1) Gate.bot_ping_and_list = (w1, -1, StRead r1) /\
     drain (bot_act c) 5 (bot_ping_init c)
-      = (w1, {| b_ph := BStatusList; b_thr := -1; b_name := []; b_uuid := bc_claim c |}) /\
+      = (w1, {| b_ph := BStatusList; b_thr := -1; b_name := []; b_uuid := bc_claim c; b_regs := [] |}) /\
     forall (b : bot) (json : list N), exists w2 r2,
        run_seg fuel0 (bot_sem c [("s", FString json)] frame0) (b_thr b) (snd (split_scan (tl r1)))
          = (w2, b_thr b, StRead r2) /\
